@@ -125,6 +125,7 @@ impl Monitor for C16 {
     fn mandatory(&self) -> Vec<&'static str> {
         vec![
             "probes_calling_the_proxy_itself",
+            "states_probed_at_the_end_of_height_or_time",
             "can_execute_true",
             "can_execute_false",
             "subkey_true",
@@ -170,6 +171,20 @@ impl Monitor for C16 {
             if !self.probe(h, &mut p, &pre, probes) {
                 return;
             }
+        }
+        if h.idx % 5 == 3 {
+            // the same state seen from the last block height and from the last representable time
+            let saved = p.w.block.clone();
+            for (hh, tt) in [(u64::MAX, saved.time.nanos()), (saved.height, u64::MAX), (u64::MAX, u64::MAX)] {
+                p.w.block.height = hh;
+                p.w.block.time = cosmwasm_std::Timestamp::from_nanos(tt);
+                let s = p.snap();
+                h.out.count("states_probed_at_the_end_of_height_or_time");
+                if !self.probe(h, &mut p, &s, probes) {
+                    return;
+                }
+            }
+            p.w.block = saved;
         }
     }
 }
